@@ -11,6 +11,7 @@ mkdir -p "$out"; if [ "$patch" != "$out/patch.diff" ]; then cp "$patch" "$out/pa
 log=$out/confirm.log; : > "$log"
 git -C /repo worktree remove --force "$wt" >/dev/null 2>&1
 git -C /repo worktree add -q --detach "$wt" HEAD || exit 2
+mkdir -p /tmp/seed/${prop}-scratch  # some demos keep their work directory there
 res() { echo "$1" | tee -a "$log"; }
 ( cd "$wt" && bash "$out/demo/run.sh" "$wt" ) >>"$log" 2>&1; base=$?
 res "demo on unchanged tree: exit $base"
